@@ -4,6 +4,8 @@ package checks
 
 import (
 	"fmt"
+	"sync"
+	"sync/atomic"
 	"testing"
 	"time"
 
@@ -387,5 +389,157 @@ func TestC05Crash(t *testing.T) {
 			AfterIf: func(rep *FsckReport, h uint64) bool {
 				return rep != nil && (rep.HalfFreed > 0 || h%8 == 0)
 			}})
+	})
+}
+
+// Frees running concurrently with other operations: 2-4 clients, each in a directory of its own, build, cut,
+// overwrite by RENAME and remove files of every size class (small, around one journal transaction, large enough
+// for several background transactions; dense and sparse) at the same time, on a data region small enough that
+// blocks freed by one client are handed to another at once.  What they reply is not judged here; when all have
+// returned everything is removed, background freeing finishes, and then every block and inode must be free again
+// - on disk and in the running allocators - and after a restart as well.
+func TestC05Conc(t *testing.T) {
+	rapid.Check(t, func(t *rapid.T) {
+		size := uint64(pick(t, []int{3600, 5000, 9000}, "disksize"))
+		d := NewDisk(size)
+		d.SetRecord(false)
+		s := StartSrv(d, rapid.Bool().Draw(t, "unstable"), false)
+		defer func() { s.Stop() }()
+		x, err := NewExec(s, "C05")
+		if err != nil {
+			failf(t, "C05", nil, "%v", err)
+		}
+		r0, ferr := quiescentFsck(x, FsckOpts{Exact: true, Allocators: true})
+		if ferr != nil {
+			failf(t, "C05", nil, "freshly formatted: %v", ferr)
+		}
+		nclients := rapid.IntRange(2, 4).Draw(t, "clients")
+		type op struct {
+			Kind   string
+			A, B   int
+			Blocks uint64
+			Off    uint64
+			Stable nt.Stable_how
+		}
+		budget := (size - 1540) / uint64(nclients) / 2
+		progs := make([][]op, nclients)
+		var desc [][]string
+		for c := range progs {
+			used := uint64(0)
+			var dl []string
+			for i := 0; i < rapid.IntRange(4, 14).Draw(t, "nops"); i++ {
+				o := op{Kind: pick(t, []string{"write", "write", "write", "cut", "cut", "remove", "remove", "rename", "sparse"}, "kind"),
+					A: rapid.IntRange(0, 2).Draw(t, "a"), B: rapid.IntRange(0, 2).Draw(t, "b"), Stable: nt.Stable_how(rapid.IntRange(0, 2).Draw(t, "stable"))}
+				switch o.Kind {
+				case "write":
+					o.Blocks = uint64(pick(t, []int{1, 9, 40, 300, 470}, "blocks"))
+					o.Off = uint64(pick(t, []int{0, 0, 7, 200, 480, 519}, "offblock"))
+					if used+o.Blocks+4 > budget {
+						o.Blocks = 1
+					}
+					used += o.Blocks + 4
+				case "cut":
+					o.Blocks = uint64(pick(t, []int{0, 0, 1, 8, 9, 100}, "toblocks"))
+				case "sparse":
+					o.Blocks = uint64(pick(t, []int{600, 1100, 2000}, "sparseblocks"))
+				}
+				progs[c] = append(progs[c], o)
+				dl = append(dl, fmt.Sprintf("%s f%d f%d blocks=%d offblock=%d stable=%d", o.Kind, o.A, o.B, o.Blocks, o.Off, o.Stable))
+			}
+			desc = append(desc, dl)
+		}
+		detail := map[string]any{"disksize": size, "programs": desc}
+		api := s.API()
+		root := s.RootFH()
+		dirs := make([]nt.Nfs_fh3, nclients)
+		for c := range dirs {
+			r := api.NFSPROC3_MKDIR(nt.MKDIR3args{Where: nt.Diropargs3{Dir: root, Name: nt.Filename3(fmt.Sprintf("c%d", c))}})
+			if r.Status != nt.NFS3_OK {
+				failf(t, "C05", detail, "MKDIR: status %d", r.Status)
+			}
+			dirs[c] = r.Resok.Obj.Handle
+		}
+		var bigFrees int64
+		o := Guard(120*time.Second, func() {
+			var wg sync.WaitGroup
+			for c := range progs {
+				wg.Add(1)
+				go func(c int) {
+					defer wg.Done()
+					dir := dirs[c]
+					name := func(i int) nt.Filename3 { return nt.Filename3(fmt.Sprintf("f%d", i)) }
+					handle := func(i int) (nt.Nfs_fh3, uint64, bool) {
+						l := api.NFSPROC3_LOOKUP(nt.LOOKUP3args{What: nt.Diropargs3{Dir: dir, Name: name(i)}})
+						if l.Status == nt.NFS3_OK {
+							return l.Resok.Object, uint64(l.Resok.Obj_attributes.Attributes.Size), true
+						}
+						cr := api.NFSPROC3_CREATE(nt.CREATE3args{Where: nt.Diropargs3{Dir: dir, Name: name(i)}})
+						return cr.Resok.Obj.Handle, 0, cr.Status == nt.NFS3_OK
+					}
+					for _, o := range progs[c] {
+						switch o.Kind {
+						case "write":
+							if fh, _, ok := handle(o.A); ok {
+								data := patternData(uint32(c*100+o.A), o.Blocks*BlockSize)
+								api.NFSPROC3_WRITE(nt.WRITE3args{File: fh, Offset: nt.Offset3(o.Off * BlockSize), Count: nt.Count3(len(data)), Stable: o.Stable, Data: data})
+							}
+						case "cut", "sparse":
+							if fh, sz, ok := handle(o.A); ok {
+								if o.Kind == "cut" && sz > (o.Blocks+500)*BlockSize {
+									atomic.AddInt64(&bigFrees, 1)
+								}
+								api.NFSPROC3_SETATTR(nt.SETATTR3args{Object: fh, New_attributes: nt.Sattr3{Size: nt.Set_size3{Set_it: true, Size: nt.Size3(o.Blocks * BlockSize)}}})
+							}
+						case "remove":
+							if _, sz, ok := handle(o.A); ok && sz > 500*BlockSize {
+								atomic.AddInt64(&bigFrees, 1)
+							}
+							api.NFSPROC3_REMOVE(nt.REMOVE3args{Object: nt.Diropargs3{Dir: dir, Name: name(o.A)}})
+						case "rename":
+							handle(o.A)
+							api.NFSPROC3_RENAME(nt.RENAME3args{From: nt.Diropargs3{Dir: dir, Name: name(o.A)}, To: nt.Diropargs3{Dir: dir, Name: name(o.B)}})
+						}
+					}
+				}(c)
+			}
+			wg.Wait()
+			// remove everything
+			for c := range dirs {
+				for i := 0; i < 3; i++ {
+					api.NFSPROC3_REMOVE(nt.REMOVE3args{Object: nt.Diropargs3{Dir: dirs[c], Name: nt.Filename3(fmt.Sprintf("f%d", i))}})
+				}
+				api.NFSPROC3_RMDIR(nt.RMDIR3args{Object: nt.Diropargs3{Dir: root, Name: nt.Filename3(fmt.Sprintf("c%d", c))}})
+			}
+		})
+		if o.Slow {
+			St.Class("call_too_slow_for_the_harness_not_judged")
+			t.Skip("harness too slow")
+		}
+		if o.Bad() {
+			St.Class("run_hung_or_panicked_not_judged")
+			t.Skip("a request hung or panicked (C06/C11)")
+		}
+		check := func(when string) {
+			r, ferr := quiescentFsck(x, FsckOpts{Exact: true, Allocators: true})
+			if ferr != nil {
+				failf(t, "C05", detail, "%s: %v", when, ferr)
+			}
+			if r.MarkedInos != 1 || r.MarkedData != r.RootBlocks || r.FreeBlocks+uint64(r.RootBlocks) != r0.FreeBlocks+uint64(r0.RootBlocks) {
+				failf(t, "C05", detail, "%s: %d inodes in use besides the root, %d data blocks marked (the root directory maps %d), %d free (after mkfs: %d)",
+					when, r.MarkedInos-1, r.MarkedData, r.RootBlocks, r.FreeBlocks, r0.FreeBlocks)
+			}
+		}
+		check("all clients' files and directories removed, background freeing finished")
+		s.Restart()
+		check("after that and a restart")
+		St.Eval(1)
+		St.Class("concurrent_build_and_free_histories_emptied_and_counted")
+		if bigFrees > 0 {
+			St.NT(Hash("c05conc", desc, size))
+			St.Class("concurrent_histories_with_frees_of_more_than_500_blocks")
+		}
+		if St.WantSample(bigFrees > 0) {
+			St.Sample(map[string]any{"kind": "concurrent build-and-free programs", "disksize": size, "programs": desc, "frees_over_500_blocks": bigFrees}, bigFrees > 0)
+		}
 	})
 }
